@@ -324,6 +324,7 @@ def run_const_edges(chk, workdir):
 HOST_TEXTS = ['12', '0x10', '-0x10', '-3', '7/2', '(9-2)/2+5', '2*(3+4)', '(0-7)/2+5', '10+(1-8)/2', '010', '0010+1', '(1) << (31)', '2147483647 + 1', '65536 * 65536',
               '1 << 30', '32768 * 65535', '-0x80000000', '-0xFFFFFFFF', '-0x7FFFFFFF', '0x80000000', '0xFFFFFFFF', '-2147483648', '-0x8000000000000000',
               '0x7FFFFFFFFFFFFFFF', '-(5)', '- 7', '+7', '- 0x80000000', '-(0x80000000)', '- 9223372036854775808', '-( 9223372036854775808 )', '-  0xFFFFFFFF',
+              '(-0x80000000)', '( - 0x80000000 )', '-((0x80000000))', '(-0x8000000000000000)', '(-9223372036854775808)', '(-5)', '((-(7)))',
               # grouping: calc's shift binds tightest, the hosts' loosest (D27b); `|` chains group differently and mean the same
               '1 << 2 + 1', '1 + 2 << 3', '16 >> 1 + 1', '2 * 3 << 1', '8 - 1 << 2', '(1 << 2) + 1', '1 << (2 + 1)', '1 | 2 | 4', '(1 | 2) | 4', '1 | 2 + 4',
               '7 - 2 - 1', '24 / 2 / 3', '2 * (3 + 4) - 5', '-(3) + 10', '100 / 7', '(0 - 7) / 2', '7 / (0 - 2)', '(0 - 8) / 2']
@@ -331,7 +332,8 @@ HOST_TEXTS = ['12', '0x10', '-0x10', '-3', '7/2', '(9-2)/2+5', '2*(3+4)', '(0-7)
 
 HOST_TEXTS_BIG = ['(1) << (31)', '2147483647 + 1', '65536 * 65536', '1 << 30', '32768 * 65535', '-0x80000000', '-0xFFFFFFFF', '-0x7FFFFFFF', '0x80000000', '0xFFFFFFFF',
                   '-2147483648', '-0x8000000000000000', '0x7FFFFFFFFFFFFFFF', '-(5)', '- 7', '- 0x80000000', '-(0x80000000)', '- 9223372036854775808',
-                  '-( 9223372036854775808 )', '-  0xFFFFFFFF']
+                  '-( 9223372036854775808 )', '-  0xFFFFFFFF', '(-0x80000000)', '( - 0x80000000 )', '-((0x80000000))', '(-0x8000000000000000)',
+                  '(-9223372036854775808)', '(-5)', '((-(7)))']
 
 
 def classify_host_text(case, detail):
@@ -440,7 +442,8 @@ def run_isar_host_text(chk, workdir):
 
 
 def classify_enum_unsigned(case, detail):
-    """known finding D190: positive literals carry the suffix `u`, so inside its own enum an earlier enumerator is unsigned in C++:
+    """known finding D190: positive literals carry the suffix `u`, so inside its own enum an earlier enumerator is unsigned in C++,
+    and so is every enumerator of an enum that holds a value of 2^31 or more (isar's -1) wherever it is used:
     the C++ value is the one 32-bit unsigned arithmetic gives, prophyc's and Python's the one integer arithmetic gives"""
     v = detail.get('values', {})
     if case.get('syntax') == 'isar-enum-own-reference' and v.get('calc') == v.get('python') == case.get('integer') and \
@@ -454,14 +457,21 @@ def run_enum_own_reference(chk, workdir):
     C++ headers (an expression with a negative intermediate result is known finding D190)"""
     import prophyc
     import prophyc.model as M
-    cases = [('E_A + 1', 2, 2), ('(E_A + 3) * 2', 8, 8), ('((E_A - 3) >> 30) + 2', 1, 5), ('(E_A - 2) / 2 + 3', 2, 2147483650), ('E_A - 1', 0, 0)]
-    for i, (text, integer, unsigned) in enumerate(cases):
+    cases = [('E_A + 1', 2, 2, None), ('(E_A + 3) * 2', 8, 8, None), ('((E_A - 3) >> 30) + 2', 1, 5, None), ('(E_A - 2) / 2 + 3', 2, 2147483650, None),
+             ('E_A - 1', 0, 0, None),
+             # outside its enum an enumerator is unsigned in C++ when the enum holds a value of 2^31 or more (isar's -1 is 0xFFFFFFFF)
+             ('E_A - 2', -1, 4294967295, '-1'), ('E_A - 2', -1, 4294967295, '0x80000000'), ('E_A - 2', -1, -1, '3'), ('E_A + 2', 3, 3, '-1')]
+    for i, (text, integer, unsigned, other) in enumerate(cases):
         base = 'eo%d' % i
         src = os.path.join(workdir, base + '.xml')
         with open(src, 'w') as f:
-            f.write('<dom><enum name="EO"><enum-member name="E_A" value="1"/><enum-member name="E_B" value="%s"/></enum>'
-                    '<struct name="SO"><member name="e" type="EO"/></struct></dom>' % text.replace('>', '&gt;'))
-        icase = {'syntax': 'isar-enum-own-reference', 'expression': text, 'integer': integer, 'unsigned': unsigned}
+            if other is None:
+                f.write('<dom><enum name="EO"><enum-member name="E_A" value="1"/><enum-member name="E_B" value="%s"/></enum>'
+                        '<struct name="SO"><member name="e" type="EO"/></struct></dom>' % text.replace('>', '&gt;'))
+            else:
+                f.write('<dom><enum name="EO"><enum-member name="E_A" value="1"/><enum-member name="E_Other" value="%s"/></enum>'
+                        '<constant name="E_B" value="%s"/><struct name="SO"><member name="e" type="EO"/></struct></dom>' % (other, text.replace('>', '&gt;')))
+        icase = {'syntax': 'isar-enum-own-reference', 'expression': text, 'integer': integer, 'unsigned': unsigned, 'other_enumerator': other}
         chk.count(('enum-own', text), True)
         chk.bump('kind:enum-own-reference')
         try:
@@ -471,13 +481,14 @@ def run_enum_own_reference(chk, workdir):
             continue
         seen = {'calc': M._collect_constants(res[base]).get('E_B')}
         try:
-            seen['python'] = dict(py_impl.import_file(os.path.join(workdir, base + '.py')).EO._enumerators)['E_B']
+            module = py_impl.import_file(os.path.join(workdir, base + '.py'))
+            seen['python'] = dict(module.EO._enumerators)['E_B'] if other is None else module.E_B
         except Exception as ex:  # noqa
             seen['python'] = '%s: %s' % (type(ex).__name__, str(ex)[:80])
         for key, hdr, ns in (('c++ full', base + '.ppf.hpp', 'prophy::generated::'), ('c++ raw', base + '.pp.hpp', '')):
             prog = os.path.join(workdir, base + key[-3:].strip() + '_eo.cpp')
             with open(prog, 'w') as f:
-                f.write('#include <stdio.h>\n#include "%s"\nint main() { printf("%%lld\\n", (long long)(unsigned)%sE_B); }\n' % (hdr, ns))
+                f.write('#include <stdio.h>\n#include "%s"\nint main() { printf("%%lld\\n", (long long)%s%sE_B); }\n' % (hdr, '(unsigned)' if other is None else '', ns))
             p = subprocess.run(['g++', '-std=c++11', '-I' + os.path.join(REPO, 'prophy_cpp', 'include'), '-I' + workdir, prog, '-o', prog[:-4]],
                                stdout=subprocess.PIPE, stderr=subprocess.STDOUT, timeout=300)
             seen[key] = int(subprocess.run([prog[:-4]], stdout=subprocess.PIPE, timeout=60).stdout.decode().split()[0]) if p.returncode == 0 else \
